@@ -5,7 +5,9 @@ package interp
 // are decided on the current path like any other comparison).
 
 import (
+	hostjson "encoding/json"
 	"go/types"
+	"sort"
 )
 
 func init() {
@@ -102,4 +104,71 @@ func deepEq(i *interpreter, t types.Type, x, y value, depth int) bool {
 		return x == nil && y == nil
 	}
 	return equals(i, t, x, y)
+}
+
+// json.Unmarshal(data, &x) with x of type any and concrete data: decoded by the host library and
+// rebuilt from the interpreter's values (map[string]any, []any, float64, string, bool, nil).
+// Anything else (symbolic bytes, typed targets) stays unmodelled: inconclusive.
+func init() {
+	externals["encoding/json.Unmarshal"] = func(fr *frame, args []value) value {
+		i := fr.i
+		data, _ := args[0].([]value)
+		buf := make([]byte, len(data))
+		for k, b := range data {
+			c, ok := b.(byte)
+			if !ok {
+				i.abort("call into stubbed package without intrinsic: encoding/json.Unmarshal (symbolic bytes)")
+			}
+			buf[k] = c
+		}
+		target, _ := args[1].(iface)
+		pt, isPtr := target.t.(*types.Pointer)
+		if !isPtr {
+			return i.mkError("json: Unmarshal(non-pointer)")
+		}
+		it, isIface := pt.Elem().Underlying().(*types.Interface)
+		if !isIface || it.NumMethods() != 0 {
+			i.abort("call into stubbed package without intrinsic: encoding/json.Unmarshal (target %v)", pt.Elem())
+		}
+		var host any
+		if err := hostjson.Unmarshal(buf, &host); err != nil {
+			return i.mkError(err.Error())
+		}
+		*(target.v.(*value)) = fromHostJSON(i, host)
+		return nilErr()
+	}
+}
+
+var emptyIfaceT = types.NewInterfaceType(nil, nil).Complete()
+
+func fromHostJSON(i *interpreter, h any) value {
+	switch h := h.(type) {
+	case nil:
+		return iface{}
+	case bool:
+		return iface{t: types.Typ[types.Bool], v: h}
+	case float64:
+		return iface{t: types.Typ[types.Float64], v: h}
+	case string:
+		return iface{t: types.Typ[types.String], v: h}
+	case []any:
+		out := make([]value, len(h))
+		for k := range h {
+			out[k] = fromHostJSON(i, h[k])
+		}
+		return iface{t: types.NewSlice(emptyIfaceT), v: out}
+	case map[string]any:
+		m := makeMap(types.Typ[types.String], 0).(*omap)
+		keys := make([]string, 0, len(h))
+		for k := range h {
+			keys = append(keys, k)
+		}
+		sort.Strings(keys)
+		for _, k := range keys {
+			m.insert(i, k, fromHostJSON(i, h[k]))
+		}
+		return iface{t: types.NewMap(types.Typ[types.String], emptyIfaceT), v: m}
+	}
+	i.abort("json.Unmarshal model: unexpected host value %T", h)
+	return nil
 }
